@@ -390,6 +390,17 @@ def report_case(ctx: Ctx, case: dict, probs: list[str]) -> None:
         first = False
         if p.startswith("oracle"):
             ctx.violation(p, {"case": case, "problems": probs}, sig={"kind": p[8:40]})
+            continue
+        # model and code differ: evaluate the property's (statistical) oracle on this very case first
+        r = None
+        if "sample_N_inputs" in p and ctx.extra.get("_stat_on_corr", 0) < 3:
+            ctx.extra["_stat_on_corr"] = ctx.extra.get("_stat_on_corr", 0) + 1
+            try:
+                r = stat_case(ctx, case, N=20000)
+            except Exception:  # noqa: BLE001
+                r = None
+        if r is not None:
+            ctx.violation(r[0] + f" [found after: {p[:160]}]", dict(r[1], problems=probs), sig={"kind": r[1]["kind"]})
         else:
             ctx.disagreement(p, {"case": case, "problems": probs})
 
@@ -407,6 +418,15 @@ def seed_corpus(ctx: Ctx, rng) -> None:
         for _ in range(400):
             cand = gen_case(ctx, rng)
             if cand is None or not pred(cand["det"]) or sum(cand["input"]) == 0:
+                continue
+            try:  # the quick sampler must have something to sample as well
+                cc = fg.build_impl(cand["prog"])["c1"]
+                qpd = emulator.QuickSampler(cc, lw.State(cand["input"]), photon_counting=cand["det"]["pnr"],
+                                            post_select=mk_post(cand["psform"], cand["rules"])).probability_distribution
+                spd = emulator.Sampler(cc, lw.State(cand["input"])).probability_distribution
+            except Exception:  # noqa: BLE001
+                continue
+            if len(qpd) < 2 or len(spd) < 3:
                 continue
             case = cand
             break
@@ -1082,7 +1102,7 @@ def history_probe(ctx: Ctx, rng) -> None:
         if ctx.out_of_time():
             return
         check_history(ctx, h, "corpus")
-    for i in range(ctx.n(40, 600)):
+    for i in range(ctx.n(60, 600)):
         if ctx.out_of_time():
             return
         check_history(ctx, gen_history(ctx, rng, "sampler" if i % 2 == 0 else "quick"), "generated")
@@ -1220,6 +1240,37 @@ def chi2_verdict(obs: dict, exp: dict, N: int, reject_bucket: bool):
     return ("deviates" if pval < 1e-9 else "ok", stat, len(big) - 1, pval)
 
 
+def stat_case(ctx: Ctx, case: dict, N: int = 6000):
+    """the statistical oracle on one case: frequencies of sample_N_inputs vs the exact detected / heralded /
+    post-selected distribution -> None | (what, details)"""
+    pool = fg.build_impl(case["prog"])
+    c = pool["c1"]
+    det, rules, mind = case["det"], case["rules"], case["min"]
+    hout = c.heralds["output"]
+    if hout and max(hout.values()) > 1 and not det["pnr"]:
+        return None
+    smp = emulator.Sampler(c, lw.State(case["input"]),
+                           detector=emulator.Detector(efficiency=det["eta"], p_dark=det["pdark"],
+                                                      photon_counting=det["pnr"]))
+    pd = smp.probability_distribution
+    res = smp.sample_N_inputs(N, post_select=make_ps(rules), min_detection=mind, seed=seed_parts(case["seed"])[1])
+    obs = counts_of(res)
+    exp = exact_inputs_dist(ctx, pd, det, hout, rules, mind)
+    acc = sum(exp.values())
+    nobs = sum(obs.values())
+    ctx.count("stat_tests")
+    v = chi2_verdict(obs, exp, N, True)
+    if v is None or v[0] == "ok":
+        return None
+    if v[0] == "support":
+        return ("oracle: sample_N_inputs returned a state that has probability zero under the exact "
+                "detected/heralded/post-selected distribution", {"case": case, "state": list(v[1]), "kind": "stat-support"})
+    return (f"oracle: empirical frequencies of sample_N_inputs deviate from the exact distribution "
+            f"(chi2={v[1]:.1f}, dof={v[2]}, p={v[3]:.2e}; accepted fraction {nobs / N:.4f} vs {acc:.4f})",
+            {"case": case, "observed": sorted(obs.items()), "expected": sorted((k, N * v_) for k, v_ in exp.items()),
+             "kind": "stat-frequencies"})
+
+
 def stat_test(ctx: Ctx, rng) -> None:
     """frequencies of sample_N_inputs vs the exact detected/heralded/post-selected distribution"""
     for _ in range(ctx.n(3, 25)):
@@ -1228,35 +1279,10 @@ def stat_test(ctx: Ctx, rng) -> None:
         case = None
         while case is None:
             case = gen_case(ctx, rng)
-        pool = fg.build_impl(case["prog"])
-        c = pool["c1"]
-        det, rules, mind = case["det"], case["rules"], case["min"]
-        hout = c.heralds["output"]
-        if hout and max(hout.values()) > 1 and not det["pnr"]:
-            continue
-        smp = emulator.Sampler(c, lw.State(case["input"]),
-                               detector=emulator.Detector(efficiency=det["eta"], p_dark=det["pdark"],
-                                                          photon_counting=det["pnr"]))
-        pd = smp.probability_distribution
-        N = 6000
-        res = smp.sample_N_inputs(N, post_select=make_ps(rules), min_detection=mind, seed=seed_parts(case["seed"])[1])
-        obs = counts_of(res)
-        exp = exact_inputs_dist(ctx, pd, det, hout, rules, mind)
-        acc = sum(exp.values())
-        nobs = sum(obs.values())
         ctx.case(("stat", json.dumps(case)), True)
-        ctx.count("stat_tests")
-        v = chi2_verdict(obs, exp, N, True)
-        if v is None:
-            continue
-        if v[0] == "support":
-            ctx.violation("oracle: sample_N_inputs returned a state that has probability zero under the exact "
-                          "detected/heralded/post-selected distribution", {"case": case}, sig={"kind": "stat-support"})
-        elif v[0] == "deviates":
-            ctx.violation(f"oracle: empirical frequencies of sample_N_inputs deviate from the exact distribution "
-                          f"(chi2={v[1]:.1f}, dof={v[2]}, p={v[3]:.2e}; accepted fraction {nobs / N:.4f} vs {acc:.4f})",
-                          {"case": case, "observed": sorted(obs.items()), "expected": sorted((k, N * v_) for k, v_ in exp.items())},
-                          sig={"kind": "stat-frequencies"})
+        r = stat_case(ctx, case)
+        if r is not None:
+            ctx.violation(r[0], r[1], sig={"kind": r[1]["kind"]})
 
 
 def stat_history(ctx: Ctx, rng) -> None:
